@@ -1,3 +1,244 @@
 import Driver.Loop
-/- placeholder: the C12 view has no executable model yet -/
-def main : IO Unit := Drv.runLoop fun _ => .atom "bad-op"
+import PMV.Model.Units
+/- line-protocol handlers for the C12 view (Units algebra and the units rule of object operations) -/
+namespace Drv.C12
+open PMV PMV.Units
+
+def err (msg : String) : Sx := .list [.atom "driver-error", .atom msg]
+
+/-- a Units value on the wire: `(e0 e1 e2 numer denom piexp)` -/
+def parseU : Sx → Option U
+  | .list [a, b, c, n, d, p] => do
+    let a ← a.toInt?; let b ← b.toInt?; let c ← c.toInt?
+    let n ← n.toNat?; let d ← d.toNat?; let p ← p.toInt?
+    some ⟨a, b, c, n, d, p⟩
+  | _ => none
+
+/-- optional units: `N` = None -/
+def parseOU : Sx → Option (Option U)
+  | .atom "N" => some none
+  | x => (parseU x).map some
+
+def uSx (u : U) : Sx :=
+  .list [Sx.ofInt u.e0, Sx.ofInt u.e1, Sx.ofInt u.e2, Sx.ofNat u.numer, Sx.ofNat u.denom, Sx.ofInt u.piexp]
+
+def ouSx : Option U → Sx
+  | none => .atom "N"
+  | some u => uSx u
+
+def rejSx : Rej → Sx
+  | .valueError => .atom "ValueError"
+  | .typeError => .atom "TypeError"
+
+def sqSx : Sq → Sx
+  | .exact u => uSx u
+  | .inexact => .atom "inexact"
+
+def exSq : Except Rej Sq → Sx
+  | .error e => rejSx e
+  | .ok r => sqSx r
+
+def exOSq : Except Rej (Option Sq) → Sx
+  | .error e => rejSx e
+  | .ok none => .atom "N"
+  | .ok (some r) => sqSx r
+
+def parsePw : Sx → Option Pw
+  | .atom "other" => some .other
+  | x => x.toInt?.map .half
+
+def facSx (f : Factor) : Sx := .list [Sx.ofNat f.n, Sx.ofNat f.d, Sx.ofInt f.p]
+
+def outSx : Except Rej RuleOut → Sx
+  | .error e => rejSx e
+  | .ok (.obj u) => .list [.atom "units", ouSx u]
+  | .ok .inexact => .atom "inexact"
+  | .ok .cmp => .atom "cmp"
+  | .ok (.const b) => .list [.atom "const", Sx.ofBool b]
+
+def parseOp : List Sx → Option OpSym
+  | [.atom "pow", p, z] => do
+    let p ← parsePw p; let z ← z.toBool?
+    some (.pow p z)
+  | [.atom s] =>
+    match s with
+    | "add" => some .add | "sub" => some .sub
+    | "lt" => some .lt | "le" => some .le | "gt" => some .gt | "ge" => some .ge
+    | "eq" => some .eq | "ne" => some .ne
+    | "stack" => some .stack | "from_scalars" => some .fromScalars | "arctan2" => some .arctan2
+    | "mul" => some .mul | "dot" => some .dot | "cross" => some .cross | "outer" => some .outer
+    | "div" => some .div | "norm_sq" => some .normSq | "norm" => some .norm
+    | "sqrt" => some .sqrt | "recip" => some .recip
+    | "sin" => some .sin | "cos" => some .cos | "tan" => some .tan | "exp" => some .exp
+    | "arcsin" => some .arcsin | "arccos" => some .arccos | "arctan" => some .arctan
+    | "int" => some .int | "frac" => some .frac | "log" => some .log
+    | _ => none
+  | _ => none
+
+def qpiSx (v : QPi) : Sx := .list [Sx.ofInt v.q.num, Sx.ofNat v.q.den, Sx.ofInt v.k]
+
+/-- run `into_units` / `from_units` of the model on an object whose stored values (and those of
+    its derivatives) are all 1: the results are the exact factors applied -/
+def scaleSx (dir : String) (top : Option U) (ds : List (Option U)) : Sx :=
+  let one : QPi := ⟨1, 0⟩
+  let o : Obj := ⟨[one], top, ds.map fun u => ("d", ⟨[one], u⟩), true⟩
+  let r := match dir with
+    | "into" => o.intoUnits
+    | "from" => o.fromUnits
+    | "round" => o.intoUnits.fromUnits
+    | _ => o.fromUnits.intoUnits
+  .list (.list (r.vals.map qpiSx) :: r.derivs.map fun kd => .list (kd.2.vals.map qpiSx))
+
+def sqPair (l r : Except Rej Sq) : Sx := .list [exSq l, exSq r]
+
+/-- both sides of an algebraic law, computed by the model functions -/
+def lawSx (law : String) (a b c : Option U) (p q : Int) : Sx :=
+  match law, a, b, c with
+  | "comm", some a, some b, _ => .list [uSx (mul a b), uSx (mul b a)]
+  | "assoc", some a, some b, some c => .list [uSx (mul (mul a b) c), uSx (mul a (mul b c))]
+  | "cancel", some a, some b, _ => .list [uSx (div (mul a b) b), uSx a]
+  | "cancel2", some a, some b, _ => .list [uSx (mul (div a b) b), uSx a]
+  | "muldiv", some a, some b, some c => .list [uSx (div (mul a b) c), uSx (mul a (div b c))]
+  | "divself", some a, _, _ => .list [uSx (div a a), uSx unitless]
+  | "sqrtsq", some a, _, _ => sqPair (sqrt (mul a a)) (.ok (.exact a))
+  | "sqrtmul", some a, some b, _ => sqPair (sqrt (mul (mul a b) (mul a b))) (.ok (.exact (mul a b)))
+  | "powadd", some a, _, _ => .list [uSx (mul (pow a p) (pow a q)), uSx (pow a (p + q))]
+  | "powneg", some a, _, _ => .list [uSx (pow a (-p)), uSx (rdivNat 1 (pow a p))]
+  | _, _, _, _ => err "law"
+
+/-- a name on the wire: `N` or a list of `(key exponent)`; the empty key is written `_` -/
+def parseName : Sx → Option (Option NameDict)
+  | .atom "N" => some none
+  | .list l => (l.mapM fun (x : Sx) =>
+      match x with
+      | Sx.list [Sx.atom k, e] => e.toInt?.map fun e => ((if k == "_" then "" else k), e)
+      | _ => none).map some
+  | _ => none
+
+def insertKV (kv : String × Int) : List (String × Int) → List (String × Int)
+  | [] => [kv]
+  | x :: xs => if kv.1 < x.1 then kv :: x :: xs else x :: insertKV kv xs
+
+/-- canonical form: sorted by key, zero exponents (immaterial) dropped -/
+def nameSx : Option NameDict → Sx
+  | none => .atom "N"
+  | some d => .list (((d.filter fun kv => kv.2 != 0).foldr insertKV []).map fun kv =>
+      .list [.atom (if kv.1 == "" then "_" else kv.1), Sx.ofInt kv.2])
+
+def handle : List Sx → Sx
+  | [.atom "mk", a, b, c, n, d, p] =>
+    match a.toInt?, b.toInt?, c.toInt?, n.toNat?, d.toNat?, p.toInt? with
+    | some a, some b, some c, some n, some d, some p => uSx (mk' a b c n d p)
+    | _, _, _, _, _, _ => err "mk"
+  | [.atom "mul", a, b] =>
+    match parseU a, parseU b with
+    | some a, some b => uSx (mul a b)
+    | _, _ => err "operand"
+  | [.atom "div", a, b] =>
+    match parseU a, parseU b with
+    | some a, some b => uSx (div a b)
+    | _, _ => err "operand"
+  | [.atom "mulnat", a, k] =>
+    match parseU a, k.toNat? with
+    | some a, some k => uSx (mulNat a k)
+    | _, _ => err "operand"
+  | [.atom "divnat", a, k] =>
+    match parseU a, k.toNat? with
+    | some a, some k => uSx (divNat a k)
+    | _, _ => err "operand"
+  | [.atom "rdivnat", k, a] =>
+    match parseU a, k.toNat? with
+    | some a, some k => uSx (rdivNat k a)
+    | _, _ => err "operand"
+  | [.atom "powr", a, p] =>
+    match parseU a, parsePw p with
+    | some a, some p => exSq (powR a p)
+    | _, _ => err "operand"
+  | [.atom "sqrt", a] =>
+    match parseU a with
+    | some a => exSq (sqrt a)
+    | _ => err "operand"
+  | [.atom "mul_units", a, b] =>
+    match parseOU a, parseOU b with
+    | some a, some b => ouSx (mulUnits a b)
+    | _, _ => err "operand"
+  | [.atom "div_units", a, b] =>
+    match parseOU a, parseOU b with
+    | some a, some b => ouSx (divUnits a b)
+    | _, _ => err "operand"
+  | [.atom "sqrt_units", a] =>
+    match parseOU a with
+    | some a => exOSq (sqrtUnits a)
+    | _ => err "operand"
+  | [.atom "units_power", a, p] =>
+    match parseOU a, parsePw p with
+    | some a, some p => exOSq (unitsPower a p)
+    | _, _ => err "operand"
+  | [.atom "names", .atom fn, a, b, k] =>
+    match parseName a, parseName b, k.toInt? with
+    | some a, some b, some k =>
+      match fn with
+      | "mul" => nameSx (mulNames a b)
+      | "div" => nameSx (divNames a b)
+      | "pow" => match namePower a (2 * k) with
+        | .ok r => nameSx r
+        | .error e => rejSx e
+      | "sqrt" => nameSx (sqrtName a)
+      | _ => err "names"
+    | _, _, _ => err "operand"
+  | [.atom "law", .atom law, a, b, c, p, q] =>
+    match parseOU a, parseOU b, parseOU c, p.toInt?, q.toInt? with
+    | some a, some b, some c, some p, some q => lawSx law a b c p q
+    | _, _, _, _, _ => err "operand"
+  | [.atom "test", .atom t, a, b] =>
+    match parseOU a, parseOU b with
+    | some a, some b =>
+      match t with
+      | "can_match" => Sx.ofBool (canMatch a b)
+      | "do_match" => Sx.ofBool (doMatch a b)
+      | "is_angle" => Sx.ofBool (isAngle a)
+      | "is_unitless" => Sx.ofBool (isUnitless a)
+      | "eq" => match a, b with
+        | some a, some b => Sx.ofBool (eqU a b)
+        | _, _ => Sx.ofBool false                    -- `units == None` is False
+      | "ne" => match a, b with
+        | some a, some b => Sx.ofBool (!eqU a b)
+        | _, _ => Sx.ofBool true
+      | _ => err "test"
+    | _, _ => err "operand"
+  | [.atom "convert", a, b] =>
+    match parseU a, parseOU b with
+    | some a, some b =>
+      match convert a b with
+      | .error e => rejSx e
+      | .ok none => .atom "same"
+      | .ok (some f) =>
+        -- reported in lowest terms (the harness identifies the factor from a float)
+        let q : Rat := (f.n : Rat) / (f.d : Rat)
+        .list [Sx.ofInt q.num, Sx.ofNat q.den, Sx.ofInt f.p]
+    | _, _ => err "operand"
+  | .atom "rule" :: a :: b :: op =>
+    match parseOU a, parseOU b, parseOp op with
+    | some a, some b, some op => outSx (unitsRule op a b)
+    | _, _, _ => err "rule"
+  | [.atom "scale", .atom dir, top, .list ds] =>
+    -- into_units / from_units: factor applied to the object and to each derivative
+    match parseOU top, ds.mapM parseOU with
+    | some top, some ds =>
+      scaleSx dir top ds
+    | _, _ => err "operand"
+  | [.atom "set_units", ok, cur, new] =>
+    match ok.toBool?, parseOU cur, parseOU new with
+    | some ok, some cur, some new =>
+      match (Obj.setUnits ⟨[], cur, [], ok⟩ new) with
+      | .error e => rejSx e
+      | .ok o => .list [.atom "units", ouSx o.units]
+    | _, _, _ => err "operand"
+  | _ => err "c12-op"
+
+end Drv.C12
+
+def main : IO Unit := Drv.runLoop fun x =>
+  match x with
+  | .list (.atom "c12" :: rest) => Drv.C12.handle rest
+  | _ => .atom "bad-op"
